@@ -186,3 +186,34 @@ package quotaresource
 //@   ensures[expired-released] seq: member.ExpiryTime <= 0 ==> !result && !in(member.ReqID, cs.allowedReq) && (exists(j, 0, old(csCard(cs)), old(csSet(cs))[j] == member.Key) ==> csCard(cs) == old(csCard(cs)) - 1)
 //@   ensures[valid-kept] seq: result ==> csCard(cs) == old(csCard(cs)) && (in(member.ReqID, cs.allowedReq) <==> old(in(member.ReqID, cs.allowedReq)))
 //@   ensures[never-adds] seq: csCard(cs) <= old(csCard(cs))
+
+// admission: a transaction is admitted only while it holds a slot; a full quota refuses it without taking one
+//@ func (*concurrentStrategy).Allowed
+//@   prop C02
+//@   mode seq
+//@   requires csOK(cs) && cs.allowedReq != nil && cs.parent == nil
+//@   requires[entries] forall(r, string, in(r, cs.allowedReq) ==> cs.allowedReq[r] != nil && allocated(cs.allowedReq[r]))
+//@   allocates allowedReqStatus
+//@   modifies mapof(cs.allowedReq), allof(allowedReqStatus.member), smapof(cmOf(csMS(cs)).ctx), now
+//@   ensures[ok] result1 == nil
+//@   ensures[admitted-only-with-a-slot] result0 ==> in(APIStream.GetID(), cs.allowedReq) && cs.allowedReq[APIStream.GetID()].status == reqAllowed
+//@   ensures[new-admission-takes-one-slot] result0 && !old(in(APIStream.GetID(), cs.allowedReq)) ==> old(csCard(cs)) < cs.maxRequestCount && csCard(cs) == old(csCard(cs)) + 1
+//@   ensures[full-refused] !old(in(APIStream.GetID(), cs.allowedReq)) && old(csCard(cs)) >= cs.maxRequestCount ==> !result0 && csCard(cs) == old(csCard(cs))
+//@   ensures[bound] csCard(cs) <= cs.maxRequestCount || csCard(cs) == old(csCard(cs))
+
+// parsing a set member "<expiry nanos>|<request id>|<instance id>" (trusted: strings.Split / ParseInt); the key is the item itself
+//@ extern concurrentStrategy).extractMemberFromItem
+//@   allocates parsedMember
+//@   modifies now
+//@   ensures result0 != nil && result0.Key == item
+
+// the periodic sweep only ever frees slots
+//@ func (*concurrentStrategy).checkForExpiredRequests
+//@   prop C02
+//@   mode seq
+//@   requires csOK(cs) && cs.allowedReq != nil
+//@   allocates parsedMember
+//@   modifies mapof(cs.allowedReq), smapof(cmOf(csMS(cs)).ctx), now
+//@   loop 1 modifies mapof(cs.allowedReq), smapof(cmOf(csMS(cs)).ctx)
+//@   loop 1 invariant[never-adds] csOK(cs) && csCard(cs) <= old(csCard(cs))
+//@   ensures[never-adds] csCard(cs) <= old(csCard(cs))
